@@ -839,4 +839,145 @@ theorem effective_hint_form (dl : Str) (f : Form) (padIds : List Str) (e : Elem)
   effective_hint_itext dl _ padIds e lang m hh
     (ownEntries_hint dl f e m he (by simp [hintV, hh]) hpaths hmedia) hne hfl hnd hlang
 
+/-! ### guidance hints and bind messages: the same derivation -/
+
+/-- the element's own guidance entries: exactly its guidance dict -/
+theorem filter_own_guidance (dl : Str) (e : Elem) (m : Kvs) (hg : guidanceV dl e = .dict m) :
+    (getTranslations dl e).filter (isAt (Itext.path e.path "hint") (s "guidance")) =
+      dictEntries (e.path ++ s ":hint") (s "guidance") (.dict m) := by
+  have hidl : e.path ++ s ":label" = Itext.path e.path "label" := by simp [Itext.path, s]
+  have hidh : e.path ++ s ":hint" = Itext.path e.path "hint" := by simp [Itext.path, s]
+  unfold getTranslations
+  simp only [hg, List.filter_append]
+  rw [filter_msgs_nil dl e "hint" _ (by decide) (Or.inr rfl),
+    filter_nil_of_display e "hint" "label" _ (by decide) (by decide) (by decide) _
+      (fun x hx => by rw [(dictEntries_id_form hx).1, hidl])]
+  have h2 : (dictEntries (e.path ++ s ":hint") (s "guidance") (.dict m)).filter (isAt (Itext.path e.path "hint") (s "guidance")) =
+      dictEntries (e.path ++ s ":hint") (s "guidance") (.dict m) := by
+    rw [List.filter_eq_self]
+    intro x hx
+    have := dictEntries_id_form hx
+    simp [isAt, this.1, this.2, hidh]
+  have h3 : (dictEntries (e.path ++ s ":hint") (s "long") (hintV dl e)).filter
+      (isAt (Itext.path e.path "hint") (s "guidance")) = [] := by
+    rw [List.filter_eq_nil_iff]
+    intro x hx hP
+    simp only [isAt, decide_eq_true_eq] at hP
+    have := (dictEntries_id_form hx).2
+    rw [this] at hP
+    exact absurd hP.2 (by decide)
+  rw [h2, h3]; simp
+
+/-- the table-level assembly, generic in display element and form: if the element's own filter is `dictEntries … m`, the
+choices cannot collide (C07's `choiceId_ne_path`) and no media entry has this form, the table's writes are the element's own -/
+theorem ownEntries_at (dl : Str) (f : Form) (e : Elem) (d : String) (form : Str) (m : Kvs) (hd : d ∈ Itext.displays)
+    (he : e ∈ f.elems) (hpaths : (f.elems.map (·.path)).Nodup)
+    (hown : (getTranslations dl e).filter (isAt (Itext.path e.path d) form) = dictEntries (Itext.path e.path d) form (.dict m))
+    (hmedia : ∀ x ∈ f.elems.flatMap (mediaEntries dl), x.form ≠ form) :
+    OwnEntries (table dl f) (Itext.path e.path d) form m := by
+  unfold OwnEntries table
+  have hP : (fun x : Entry => decide (x.id = Itext.path e.path d ∧ x.form = form)) = isAt (Itext.path e.path d) form := rfl
+  rw [hP, List.filter_append, List.filter_append,
+    flatMap_filter_own_at dl e d form _ hd hown f.elems he hpaths]
+  have hch : ((f.choices.filter fun c => (itextLists f).contains c.list).flatMap (choiceEntries dl)).filter
+      (isAt (Itext.path e.path d) form) = [] := by
+    apply filter_flatMap_nil
+    intro c _
+    rw [List.filter_eq_nil_iff]
+    intro x hx hP
+    simp only [isAt, decide_eq_true_eq] at hP
+    have h1 : Itext.choiceId c.list c.idx = Itext.path e.path d := by
+      rw [← choiceId_eq, ← choiceEntries_id hx, hP.1]
+    exact Itext.choiceId_ne_path _ _ _ hd h1
+  have hmd : (f.elems.flatMap (mediaEntries dl)).filter (isAt (Itext.path e.path d) form) = [] := by
+    rw [List.filter_eq_nil_iff]
+    intro x hx hP
+    simp only [isAt, decide_eq_true_eq] at hP
+    exact hmedia x hx hP.2
+  rw [hch, hmd]
+  simp
+
+/-- **effective guidance hint on whole forms** (translated guidance; no `OwnEntries` hypothesis) -/
+theorem effective_guidance_form (dl : Str) (f : Form) (padIds : List Str) (e : Elem) (m : Kvs) (lang : Str)
+    (he : e ∈ f.elems) (hg : e.guidance = .dict m) (hpaths : (f.elems.map (·.path)).Nodup)
+    (hmedia : ∀ x ∈ f.elems.flatMap (mediaEntries dl), x.form ≠ s "guidance")
+    (hne : m ≠ .nil) (hfl : FlatD m) (hnd : m.keys.Nodup) (hlang : lang ≠ []) :
+    via (table dl f) padIds (hintSrc e) (s "guidance") lang = some ((readLang dl e.guidance lang).getD (s "-")) := by
+  have hidh : e.path ++ s ":hint" = Itext.path e.path "hint" := by simp [Itext.path, s]
+  have hown := ownEntries_at dl f e "hint" (s "guidance") m (by decide) he hpaths
+    (by rw [← hidh]; exact filter_own_guidance dl e m (by simp [guidanceV, hg])) hmedia
+  rw [← hidh] at hown
+  exact effective_guidance_itext dl _ padIds e lang m hg hown hne hfl hnd hlang
+
+theorem filter_msgEntries (dl : Str) (e : Elem) (d d' : String) (v : V) (hd : d ∈ Itext.displays) (hd' : d' ∈ Itext.displays) :
+    (msgEntries dl (e.path ++ s ":" ++ d'.toList) d'.toList v).filter (isAt (Itext.path e.path d) (s "long")) =
+      if d' = d then msgEntries dl (e.path ++ s ":" ++ d'.toList) d'.toList v else [] := by
+  by_cases h : d' = d
+  · subst h
+    simp only [if_true]
+    rw [List.filter_eq_self]
+    intro x hx
+    have := msgEntries_id_form hx
+    have hid : e.path ++ s ":" ++ d'.toList = Itext.path e.path d' := elemId_eq _ _
+    simp only [isAt, this.1, this.2, hid, and_self, decide_true]
+  · simp only [h, if_false]
+    exact filter_nil_of_display e d d' _ hd hd' h _ fun x hx => by rw [(msgEntries_id_form hx).1, elemId_eq]
+
+/-- the element's own entries under a message id: exactly that message's dict -/
+theorem filter_own_msg (dl : Str) (e : Elem) (d : String) (b m : Kvs)
+    (hd : d = "jr:constraintMsg" ∨ d = "jr:requiredMsg")
+    (hb : e.bind = .dict b) (hk : b.get d.toList = .dict m) :
+    (getTranslations dl e).filter (isAt (Itext.path e.path d) (s "long")) =
+      dictEntries (Itext.path e.path d) (s "long") (.dict m) := by
+  have hdd : d ∈ Itext.displays := by rcases hd with rfl | rfl <;> decide
+  have hidl : e.path ++ s ":label" = Itext.path e.path "label" := by simp [Itext.path, s]
+  have hidh : e.path ++ s ":hint" = Itext.path e.path "hint" := by simp [Itext.path, s]
+  have hnl : ("label" : String) ≠ d := by rcases hd with rfl | rfl <;> decide
+  have hnh : ("hint" : String) ≠ d := by rcases hd with rfl | rfl <;> decide
+  have hbf : (V.dict b).falsy = false := by
+    cases b with
+    | nil => simp [Kvs.get] at hk
+    | cons k v r => simp [V.falsy]
+  unfold getTranslations
+  simp only [List.filter_append]
+  have hL : (dictEntries (e.path ++ s ":label") (s "long") (labelV dl e)).filter (isAt (Itext.path e.path d) (s "long")) = [] :=
+    filter_nil_of_display e d "label" _ hdd (by decide) hnl _ (fun x hx => by rw [(dictEntries_id_form hx).1, hidl])
+  have hH : (dictEntries (e.path ++ s ":hint") (s "long") (hintV dl e)).filter (isAt (Itext.path e.path d) (s "long")) = [] :=
+    filter_nil_of_display e d "hint" _ hdd (by decide) hnh _ (fun x hx => by rw [(dictEntries_id_form hx).1, hidh])
+  have hG : (dictEntries (e.path ++ s ":hint") (s "guidance") (guidanceV dl e)).filter (isAt (Itext.path e.path d) (s "long")) = [] :=
+    filter_nil_of_display e d "hint" _ hdd (by decide) hnh _ (fun x hx => by rw [(dictEntries_id_form hx).1, hidh])
+  rw [hL, hH, hG]
+  simp only [List.append_nil]
+  unfold msgsOf
+  simp only [hb, hbf, Bool.false_eq_true, if_false, msgKeys, List.flatMap_cons, List.flatMap_nil, List.append_nil,
+    List.filter_append]
+  have e1 := filter_msgEntries dl e d "jr:constraintMsg" (b.get (s "jr:constraintMsg")) hdd (by decide)
+  have e2 := filter_msgEntries dl e d "jr:requiredMsg" (b.get (s "jr:requiredMsg")) hdd (by decide)
+  have e3 := filter_msgEntries dl e d "jr:noAppErrorString" (b.get (s "jr:noAppErrorString")) hdd (by decide)
+  rcases hd with rfl | rfl
+  · rw [show s "jr:constraintMsg" = ("jr:constraintMsg" : String).toList from rfl] at *
+    rw [show s "jr:requiredMsg" = ("jr:requiredMsg" : String).toList from rfl] at *
+    rw [show s "jr:noAppErrorString" = ("jr:noAppErrorString" : String).toList from rfl] at *
+    rw [e1, e2, e3, hk]
+    simp [msgEntries]
+    simp [Itext.path, s]
+  · rw [show s "jr:constraintMsg" = ("jr:constraintMsg" : String).toList from rfl] at *
+    rw [show s "jr:requiredMsg" = ("jr:requiredMsg" : String).toList from rfl] at *
+    rw [show s "jr:noAppErrorString" = ("jr:noAppErrorString" : String).toList from rfl] at *
+    rw [e1, e2, e3, hk]
+    simp [msgEntries]
+    simp [Itext.path, s]
+
+/-- **effective constraint / required message on whole forms** (translated message; no `OwnEntries` hypothesis) -/
+theorem effective_message_form (dl : Str) (f : Form) (padIds : List Str) (e : Elem) (d : String) (b m : Kvs) (lang : Str)
+    (hd : d = "jr:constraintMsg" ∨ d = "jr:requiredMsg")
+    (he : e ∈ f.elems) (hb : e.bind = .dict b) (hk : b.get d.toList = .dict m) (hpaths : (f.elems.map (·.path)).Nodup)
+    (hmedia : ∀ x ∈ f.elems.flatMap (mediaEntries dl), x.form ≠ s "long")
+    (hne : m ≠ .nil) (hfl : FlatD m) (hnd : m.keys.Nodup) (hlang : lang ≠ []) :
+    via (table dl f) padIds (msgSrc e d.toList) (s "long") lang = some ((readLang dl (b.get d.toList) lang).getD (s "-")) := by
+  have hdd : d ∈ Itext.displays := by rcases hd with rfl | rfl <;> decide
+  have hown := ownEntries_at dl f e d (s "long") m hdd he hpaths (filter_own_msg dl e d b m hd hb hk) hmedia
+  rw [← elemId_eq] at hown
+  exact effective_message_itext dl _ padIds e d.toList lang b m hb hk hown hne hfl hnd hlang
+
 end Pyxv.C08
